@@ -299,7 +299,8 @@ fn main() {
                 let p = refdec::parse(&st);
                 println!("after parse {:.1}s {} ok={}", t0.elapsed().as_secs_f64(), hwm(), p.is_ok());
             }
-            for i in 5..6u64 {
+            let (lo, hi): (u64, u64) = (args.get(2).and_then(|s| s.parse().ok()).unwrap_or(5), args.get(3).and_then(|s| s.parse().ok()).unwrap_or(6));
+            for i in lo..hi {
                 let t0 = Instant::now();
                 let o = c20::run(rng::run_seed(seed, 95, i));
                 println!("{} {:.1}s evals={} {}", i, t0.elapsed().as_secs_f64(), o.evaluations, o.sample.map(|s| s["config"].to_string()).unwrap_or_default());
